@@ -4,6 +4,6 @@
 // them that is neither under contract nor pinned by name still makes this unit undecided, which sends the check to the
 // property's bounded sweep of the real code
 //@pinfile file=lrtable/src/lib/pager.rs sha=2691abd40282da88
-//@pinfile file=lrtable/src/lib/itemset.rs sha=6bd031e6e90f8d6a
+//@pinfile file=lrtable/src/lib/itemset.rs sha=776d693e72401f17
 //@pinfile file=lrtable/src/lib/statetable.rs sha=d87829631c7b15fa
 //@use prelude/tail.rs
